@@ -250,3 +250,130 @@ func ruleOU10(c *Ctx) {
 		c.ok("<module>", "no-read-path-rewrite", "-", "no store into Task.Title/Body on the read path outside replay's event cases")
 	}
 }
+
+// ------------------------------------------------------------------ DT8 / RD5 / OU12
+
+func init() {
+	register(&Rule{ID: "DT8", Min: 1, Run: ruleDT8,
+		Doc: "loader-adds-no-rejections: the loader (loadGraph) fails only when the reader or the replay failed: every failing return hands back an error that comes from readEvents / replayEvents. An extra semantic check on the loaded graph (e.g. the claim invariant) rejects states that a torn prefix of a valid log legitimately replays to (a claim line without its state line) and bricks the store for every command"})
+	register(&Rule{ID: "RD5", Min: 1, Run: ruleRD5,
+		Doc: "blocked-predicate-not-on-epics: isBlocked judges tasks (its dependency test looks at the dependency's State, which an epic never changes); no call of it is made on a value already known to be an epic (on the true edge of isEpic(x) / x.IsEpic)"})
+	register(&Rule{ID: "OU12", Min: 1, Run: ruleOU12,
+		Doc: "file-url-path-is-data: deriveFileURL never hands text derived from the path to a URL *parser* (url.Parse and friends): `#`, `?` and `%` in a file name would be read as syntax and file_url would name another file; the URL is assembled from a url.URL value whose Path field is the absolute path"})
+}
+
+func ruleDT8(c *Ctx) {
+	lg := c.anchor("loadGraph")
+	if lg == nil {
+		return
+	}
+	rd, re := c.F.Anchors["readEvents"], c.F.Anchors["replayEvents"]
+	n := 0
+	for _, g := range append([]*ssa.Function{lg}, c.unitOf(lg)...) {
+		if g == rd || g == re || c.opaqueHelper(g) && g != lg {
+			continue
+		}
+		for _, r := range returnsOf(g) {
+			if len(r.Results) == 0 || !isErrorType(r.Results[len(r.Results)-1]) || isNilConst(returnedValue(r, len(r.Results)-1)) {
+				continue
+			}
+			srcs := errorSourceValues(r)
+			if len(srcs) == 0 {
+				continue
+			}
+			n++
+			bad := ""
+			for _, sv := range srcs {
+				cl, ok := sv.(*ssa.Call)
+				if !ok {
+					bad = c.canon(sv)
+					continue
+				}
+				cal := calleeOf(&cl.Call)
+				if cal == rd || cal == re || (cal != nil && c.inUnit(cal, lg)) {
+					continue
+				}
+				bad = calleeFullName(&cl.Call)
+			}
+			c.check(bad == "", c.Name(g), fmt.Sprintf("loader-error-source#%d", n), c.Pos(r.Pos()), "the loader's error comes from the reader or the replay",
+				"the loader can fail with an error from "+bad+": it rejects a log that the reader and the replay accept (for instance the state a torn multi-event write leaves behind), and every command fails from then on")
+		}
+	}
+	if n == 0 {
+		c.bad(c.Name(lg), "loader-error-source#0", c.FnPos(lg), "the loader has no failing return: structure not recognised")
+	}
+}
+
+func ruleRD5(c *Ctx) {
+	isEpic := c.F.Anchors["isEpic"]
+	n := 0
+	// isReady is deliberately evaluated for epic rows as well (buildEpicTree stores it for display); only isBlocked,
+	// whose "waits on an unfinished dependency" reading is wrong for epics, is confined to tasks
+	for _, name := range []string{"isBlocked"} {
+		pred := c.F.Anchors[name]
+		if pred == nil {
+			continue
+		}
+		cnt := map[*ssa.Function]int{}
+		for _, cs := range c.callers[pred] {
+			f := cs.Fn
+			if f == pred || c.inUnit(f, pred) {
+				continue
+			}
+			n++
+			cnt[f]++
+			// the task argument: the first *Task-typed argument
+			var arg ssa.Value
+			for _, a := range cs.Call.Common().Args {
+				if namedTypeName(a.Type()) == "ergo.Task" {
+					arg = a
+					break
+				}
+			}
+			if arg == nil {
+				continue
+			}
+			ac := c.canon(arg)
+			onEpic := edgesWhere(f, func(a Atom, holds bool) bool {
+				if a.Kind != "bool" || !holds {
+					return false
+				}
+				if cl, _ := callOf(a.X); cl != nil && isEpic != nil && calleeOf(&cl.Call) == isEpic && len(cl.Call.Args) > 0 && c.canon(cl.Call.Args[0]) == ac {
+					return true
+				}
+				if b, nme, ok := fieldLoad(a.X); ok && nme == "IsEpic" && c.canon(b) == ac {
+					return true
+				}
+				return false
+			})
+			c.check(len(onEpic) == 0 || !mustPassEdges(f, cs.Call.Block(), onEpic), c.Name(f), fmt.Sprintf("%s-not-on-epic#%d", name, cnt[f]), c.Pos(cs.Call.Pos()),
+				name+" is not applied to a value known to be an epic",
+				name+" is applied to an epic here: its dependency test reads the dependency's State, which an epic never leaves, so an epic with an epic dependency counts as blocked / not ready forever and its ready tasks drop out of the view")
+		}
+	}
+	if n == 0 {
+		c.bad("<module>", "predicate-calls", "-", "no call of isBlocked found")
+	}
+}
+
+func ruleOU12(c *Ctx) {
+	df := c.anchor("deriveFileURL")
+	if df == nil {
+		return
+	}
+	bad := ""
+	for _, g := range append([]*ssa.Function{df}, c.unitOf(df)...) {
+		for _, call := range callsNamed(g, "net/url.Parse", "net/url.ParseRequestURI", "(*net/url.URL).Parse", "(*net/url.URL).UnmarshalBinary") {
+			bad = c.Pos(call.Pos())
+		}
+	}
+	c.check(bad == "", c.Name(df), "no-url-parsing", c.FnPos(df), "the file URL is assembled from a url.URL value, never parsed from text",
+		"the file URL is obtained by parsing text built from the path (at "+bad+"): `#`, `?` and `%` in a file or directory name are read as URL syntax, so file_url names a different (or no) file than the one whose sha256 was recorded")
+	usesStruct := false
+	for _, g := range append([]*ssa.Function{df}, c.unitOf(df)...) {
+		if len(callsNamed(g, "(*net/url.URL).String", "(net/url.URL).String")) > 0 {
+			usesStruct = true
+		}
+	}
+	c.check(usesStruct, c.Name(df), "url-from-struct", c.FnPos(df), "the URL text is (*url.URL).String() of a value carrying the path as data", "the file URL is not produced by url.URL.String(): path characters are not escaped as data")
+}
